@@ -1,5 +1,334 @@
-(* C08 — placeholder statements; theorems in BT/DiskProofs.v (to come) *)
+(* C08 — Bigtable, on-disk storage: stopping the emulator at any moment and starting it again on
+   the same directory serves exactly what the acknowledged requests produced; a request in flight
+   is wholly present or wholly absent; nothing deleted comes back.
+   Only statements here; the model of the disk engine is BT/Disk.v (image, restart, dstep with the
+   images at the instrumented crash points), the proofs are in BT/DiskProofs.v.
+   srv_eq = same table names, and under each name the same families with their GC rules and the
+   same rows; on the sorted lists the model builds it is equality ([C08_srv_eq_is_equality]). *)
 From Coq Require Import List NArith ZArith Bool.
-From Emu.BT Require Import Types Server Disk.
-Example C08_model_runs : restart (image_of init_dstate) = nil.
-Proof. reflexivity. Qed.
+Import ListNotations.
+From Emu.Common Require Import Bytes Str StrProofs.
+From Emu.BT Require Import Types Mutate Server AdminProofs CellSpec Disk DiskProofs.
+
+Theorem C08_srv_eq_is_equality : forall s1 s2, asorted s1 -> asorted s2 -> srv_eq s1 s2 -> s1 = s2.
+Proof. exact srv_eq_sorted_eq. Qed.
+Print Assumptions C08_srv_eq_is_equality.
+
+(* ---- 1. the invariant: one definition file per live table holding exactly its families;
+        directories without a live table never under a live name ---- *)
+Theorem C08_disk_inv_step : forall d c, disk_inv d -> disk_inv (fst (fst (dstep d c))).
+Proof. exact disk_inv_step. Qed.
+Print Assumptions C08_disk_inv_step.
+
+Theorem C08_disk_inv_run : forall cs d, disk_inv d -> disk_inv (fst (drun d cs)).
+Proof. exact disk_inv_run. Qed.
+Print Assumptions C08_disk_inv_run.
+
+Theorem C08_disk_inv_reachable : forall cs, disk_inv (fst (drun init_dstate cs)).
+Proof. exact disk_inv_reachable. Qed.
+Print Assumptions C08_disk_inv_reachable.
+
+(* ---- 3. while it runs the disk engine is unobservable: states and answers of [run] (C17) ---- *)
+Theorem C08_mem_is_sequential : forall cs,
+  ds_mem (fst (drun init_dstate cs)) = fst (run [] cs) /\ map fst (snd (drun init_dstate cs)) = snd (run [] cs).
+Proof. exact mem_is_sequential. Qed.
+Print Assumptions C08_mem_is_sequential.
+
+(* ---- 2. durability: for every program, a restart at the request boundary serves exactly the
+        acknowledged state; for every prefix of the program ---- *)
+Theorem C08_durable_after_ack : forall cs,
+  srv_eq (restart (image_of (fst (drun init_dstate cs)))) (ds_mem (fst (drun init_dstate cs)))
+  /\ restart (image_of (fst (drun init_dstate cs))) = fst (run [] cs).
+Proof. exact durable_after_ack. Qed.
+Print Assumptions C08_durable_after_ack.
+
+Theorem C08_durable_every_boundary : forall cs k,
+  restart (image_of (fst (drun init_dstate (firstn k cs)))) = fst (run [] (firstn k cs)).
+Proof. exact durable_every_boundary. Qed.
+Print Assumptions C08_durable_every_boundary.
+
+(* ---- 5. restart cycles ---- *)
+(* starting on a well-formed image establishes the invariant *)
+Theorem C08_boot_inv : forall im, image_wf im -> disk_inv (boot im).
+Proof. exact boot_inv. Qed.
+Print Assumptions C08_boot_inv.
+
+(* stop/start at a boundary: the server is the same, the directory is the same, k cycles change nothing *)
+Theorem C08_restart_idempotent : forall d, disk_inv d ->
+  disk_inv (boot (image_of d))
+  /\ ds_mem (boot (image_of d)) = ds_mem d
+  /\ restart (image_of (boot (image_of d))) = restart (image_of d)
+  /\ forall k, restart (Nat.iter k cycle (image_of d)) = ds_mem d.
+Proof. exact restart_idempotent. Qed.
+Print Assumptions C08_restart_idempotent.
+
+Theorem C08_cycle_identity : forall d, disk_inv d -> image_of (boot (image_of d)) = image_of d.
+Proof. exact cycle_identity. Qed.
+Print Assumptions C08_cycle_identity.
+
+(* for any well-formed image (also one taken at a crash point) *)
+Theorem C08_restart_cycles : forall k im, image_wf im ->
+  image_wf (Nat.iter k cycle im) /\ restart (Nat.iter k cycle im) = restart im.
+Proof. exact restart_cycles. Qed.
+Print Assumptions C08_restart_cycles.
+
+(* the restarted server continues like the original *)
+Theorem C08_restarted_continues : forall d cs, disk_inv d ->
+  ds_mem (fst (drun (boot (image_of d)) cs)) = ds_mem (fst (drun d cs))
+  /\ map fst (snd (drun (boot (image_of d)) cs)) = map fst (snd (drun d cs))
+  /\ restart (image_of (fst (drun (boot (image_of d)) cs))) = restart (image_of (fst (drun d cs))).
+Proof. exact restarted_continues. Qed.
+Print Assumptions C08_restarted_continues.
+
+(* ---- 4. a kill inside a request ---- *)
+(* PARTIAL.  Full statement: for every reachable d, request c and crash-point image im of dstep d c,
+   restart im is srv_eq to the restart before or the restart after.  Proved with the guard
+   [no_effective_drop]: the request is not a ModifyFamilies that both rewrites rows (drops a family
+   holding cells) and changes the families.  The guard is exact (C08_crash_modify_first_point_exact),
+   and the unguarded statement is false of the code (C08_crash_atomic_drop_family_refuted, BT-18). *)
+Theorem C08_crash_atomic_partial : forall d c, disk_inv d -> orphans_empty d -> no_effective_drop (ds_mem d) c ->
+  forall nm im, In (nm, im) (snd (dstep d c)) ->
+  srv_eq (restart im) (restart (image_of d)) \/ srv_eq (restart im) (restart (image_of (fst (fst (dstep d c))))).
+Proof. exact crash_atomic_partial. Qed.
+Print Assumptions C08_crash_atomic_partial.
+
+(* for every program: before = run of the program, after = run of the program plus the request *)
+Theorem C08_crash_atomic_program_partial : forall cs c nm im,
+  let d := fst (drun init_dstate cs) in
+  no_effective_drop (fst (run [] cs)) c -> In (nm, im) (snd (dstep d c)) ->
+  srv_eq (restart im) (fst (run [] cs)) \/ srv_eq (restart im) (fst (run [] (cs ++ [c]))).
+Proof. exact crash_atomic_program. Qed.
+Print Assumptions C08_crash_atomic_program_partial.
+
+(* the guard holds: for every request other than ModifyFamilies; for a ModifyFamilies without a drop;
+   for the drop of a family that holds no cell *)
+Theorem C08_guard_other : forall s c, (forall name mods, cl_req c <> BModifyFamilies name mods) -> no_effective_drop s c.
+Proof. exact other_no_effective_drop. Qed.
+Print Assumptions C08_guard_other.
+Theorem C08_guard_no_drop : forall s name mods now coins, no_drop mods = true ->
+  no_effective_drop s (mkCall (BModifyFamilies name mods) now coins).
+Proof. exact no_drop_no_effective_drop. Qed.
+Print Assumptions C08_guard_no_drop.
+Theorem C08_guard_cellless_family : forall cs name f now coins,
+  let s := fst (run [] cs) in
+  (forall t k fs, alookup name s = Some t -> alookup k (t_rows t) = Some fs -> get_family fs f = None) ->
+  no_effective_drop s (mkCall (BModifyFamilies name [MDrop f]) now coins).
+Proof. exact drop_cellless_family_guard. Qed.
+Print Assumptions C08_guard_cellless_family.
+
+(* exactness: killed at disk.meta.tmp inside a successful ModifyFamilies the directory restarts
+   with the OLD families and the NEW (purged) rows; that is the state before iff no row was
+   rewritten, the state after iff the families did not change *)
+Theorem C08_crash_modify_first_point_exact : forall d name mods now coins t, disk_inv d ->
+  alookup name (ds_mem d) = Some t ->
+  let c := mkCall (BModifyFamilies name mods) now coins in
+  br_code (snd (fst (dstep d c))) = cOK ->
+  let t' := apply_mods t mods in
+  exists im rest, snd (dstep d c) = (s_meta_tmp, im) :: rest
+    /\ alookup name (restart im) = Some (mkTable (t_fams t) (t_rows t'))
+    /\ (srv_eq (restart im) (restart (image_of d)) <-> t_rows t' = t_rows t)
+    /\ (srv_eq (restart im) (restart (image_of (fst (fst (dstep d c))))) <-> t_fams t' = t_fams t).
+Proof. exact crash_modify_first_point_exact. Qed.
+Print Assumptions C08_crash_modify_first_point_exact.
+
+(* BT-18: a reachable state and a ModifyFamilies-with-drop whose first crash point restarts to neither *)
+Theorem C08_crash_atomic_drop_family_refuted :
+  exists cs c im rest,
+    let d := fst (drun init_dstate cs) in
+    snd (dstep d c) = (s_meta_tmp, im) :: rest
+    /\ br_code (snd (fst (dstep d c))) = cOK
+    /\ ~ srv_eq (restart im) (restart (image_of d))
+    /\ ~ srv_eq (restart im) (restart (image_of (fst (fst (dstep d c))))).
+Proof. exact crash_atomic_drop_family_refuted. Qed.
+Print Assumptions C08_crash_atomic_drop_family_refuted.
+
+(* the second hypothesis of C08_crash_atomic_partial (directories without a definition are empty)
+   holds after every history of requests and restarts at boundaries and crash points
+   (C08_reachable_inv) but is needed: with an orphan directory holding rows - what a kill INSIDE
+   DeleteTable, which has no instrumented point, would leave - a CreateTable killed at
+   disk.meta.renamed restarts serving the old rows *)
+Theorem C08_crash_atomic_create_orphan_refuted :
+  disk_inv ex_orphan_state /\ ~ orphans_empty ex_orphan_state
+  /\ exists c im,
+       In (s_meta_renamed, im) (snd (dstep ex_orphan_state c))
+       /\ ~ srv_eq (restart im) (restart (image_of ex_orphan_state))
+       /\ ~ srv_eq (restart im) (restart (image_of (fst (fst (dstep ex_orphan_state c))))).
+Proof. exact crash_atomic_create_orphan_refuted. Qed.
+Print Assumptions C08_crash_atomic_create_orphan_refuted.
+
+(* requests without crash points: row writes, deletes by prefix, RMW, CAM, GC, reads, DeleteTable *)
+Theorem C08_no_crash_points : forall d c, disk_special (cl_req c) = false -> snd (dstep d c) = [].
+Proof. exact no_crash_points. Qed.
+Print Assumptions C08_no_crash_points.
+
+Theorem C08_row_requests_no_crash_points : forall d now coins,
+  (forall tbl key muts, snd (dstep d (mkCall (BMutateRow tbl key muts) now coins)) = [])
+  /\ (forall tbl entries, snd (dstep d (mkCall (BMutateRows tbl entries) now coins)) = [])
+  /\ (forall tbl key p tm fm, snd (dstep d (mkCall (BCheckAndMutate tbl key p tm fm) now coins)) = [])
+  /\ (forall tbl key rules, snd (dstep d (mkCall (BReadModifyWrite tbl key rules) now coins)) = [])
+  /\ (forall tbl pfx, snd (dstep d (mkCall (BDropRowRange tbl false pfx) now coins)) = [])
+  /\ (forall tbl, snd (dstep d (mkCall (BRunGC tbl) now coins)) = [])
+  /\ (forall tbl keys ranges f limit, snd (dstep d (mkCall (BReadRows tbl keys ranges f limit) now coins)) = [])
+  /\ (forall tname, snd (dstep d (mkCall (BDeleteTable tname) now coins)) = []).
+Proof. exact row_requests_no_crash_points. Qed.
+Print Assumptions C08_row_requests_no_crash_points.
+
+(* ---- repeated crash/restart cycles: states reachable by requests, restarts at request
+        boundaries and restarts on the image of any crash point ---- *)
+Theorem C08_reachable_inv : forall d, dreach d -> disk_inv d /\ orphans_empty d.
+Proof. exact dreach_inv. Qed.
+Print Assumptions C08_reachable_inv.
+
+Theorem C08_crash_restart_cycles : forall d, dreach d ->
+  restart (image_of d) = ds_mem d
+  /\ (forall cs, restart (image_of (fst (drun d cs))) = fst (run (ds_mem d) cs)
+                 /\ map fst (snd (drun d cs)) = snd (run (ds_mem d) cs))
+  /\ (forall c nm im, In (nm, im) (snd (dstep d c)) ->
+        ds_mem (boot im) = restart im
+        /\ restart (image_of (boot im)) = restart im
+        /\ (no_effective_drop (ds_mem d) c ->
+            srv_eq (restart im) (restart (image_of d)) \/ srv_eq (restart im) (restart (image_of (fst (fst (dstep d c))))))).
+Proof. exact crash_restart_cycles. Qed.
+Print Assumptions C08_crash_restart_cycles.
+
+(* ---- 6. nothing deleted comes back ---- *)
+(* a deleted table is absent from every later restart, at boundaries and crash points, through any
+   history of requests (other than a create of that name), restarts and crashes *)
+Theorem C08_deleted_table_stays_deleted : forall d name now coins, dreach d ->
+  let c := mkCall (BDeleteTable name) now coins in
+  br_code (snd (fst (dstep d c))) = cOK ->
+  let d' := fst (fst (dstep d c)) in
+  alookup name (restart (image_of d')) = None
+  /\ forall d2, reach_nc name d' d2 ->
+       alookup name (restart (image_of d2)) = None
+       /\ forall c2 nm im, not_create name c2 -> In (nm, im) (snd (dstep d2 c2)) -> alookup name (restart im) = None.
+Proof. exact deleted_table_stays_deleted. Qed.
+Print Assumptions C08_deleted_table_stays_deleted.
+
+(* a (re-)created table restarts empty - also at the crash points of the create - and afterwards
+   holds exactly what was written since *)
+Theorem C08_recreated_table_restarts_empty : forall d parent tid fams now coins, dreach d ->
+  let name := table_name parent tid in
+  alookup name (ds_mem d) = None ->
+  let c := mkCall (BCreateTable parent tid fams) now coins in
+  let d' := fst (fst (dstep d c)) in
+  alookup name (restart (image_of d')) = Some (mkTable (make_fams fams) [])
+  /\ ds_mem d' = set_table (ds_mem d) name (mkTable (make_fams fams) [])
+  /\ (forall nm im, In (nm, im) (snd (dstep d c)) ->
+        alookup name (restart im) = None \/ alookup name (restart im) = Some (mkTable (make_fams fams) []))
+  /\ (forall cs, restart (image_of (fst (drun d' cs))) = fst (run (ds_mem d') cs)).
+Proof. exact recreated_table_restarts_empty. Qed.
+Print Assumptions C08_recreated_table_restarts_empty.
+
+Theorem C08_dropped_prefix_absent : forall d name p now coins t, dreach d -> alookup name (ds_mem d) = Some t ->
+  let d' := fst (fst (dstep d (mkCall (BDropRowRange name false (Some p)) now coins))) in
+  exists t', alookup name (restart (image_of d')) = Some t'
+    /\ t_fams t' = t_fams t
+    /\ (forall k, has_prefix k p = true -> alookup k (t_rows t') = None)
+    /\ (forall k, has_prefix k p = false -> alookup k (t_rows t') = alookup k (t_rows t)).
+Proof. exact dropped_prefix_absent. Qed.
+Print Assumptions C08_dropped_prefix_absent.
+
+Theorem C08_cleared_table_restarts_empty : forall d name pfx now coins t, dreach d -> alookup name (ds_mem d) = Some t ->
+  let c := mkCall (BDropRowRange name true pfx) now coins in
+  alookup name (restart (image_of (fst (fst (dstep d c))))) = Some (mkTable (t_fams t) [])
+  /\ forall nm im, In (nm, im) (snd (dstep d c)) ->
+       alookup name (restart im) = Some t \/ alookup name (restart im) = Some (mkTable (t_fams t) []).
+Proof. exact cleared_table_restarts_empty. Qed.
+Print Assumptions C08_cleared_table_restarts_empty.
+
+Theorem C08_deleted_row_absent : forall d name key muts now coins, dreach d ->
+  let c := mkCall (BMutateRow name key (muts ++ [DeleteFromRow])) now coins in
+  br_code (snd (fst (dstep d c))) = cOK ->
+  exists t', alookup name (restart (image_of (fst (fst (dstep d c))))) = Some t' /\ alookup key (t_rows t') = None.
+Proof. exact deleted_row_absent. Qed.
+Print Assumptions C08_deleted_row_absent.
+
+Theorem C08_dropped_family_absent : forall d name f now coins t, dreach d -> alookup name (ds_mem d) = Some t ->
+  known_family (t_fams t) f = true ->
+  let d' := fst (fst (dstep d (mkCall (BModifyFamilies name [MDrop f]) now coins))) in
+  exists t', alookup name (restart (image_of d')) = Some t'
+    /\ t_fams t' = aremove f (t_fams t)
+    /\ known_family (t_fams t') f = false
+    /\ (forall k fs, alookup k (t_rows t') = Some fs -> get_family fs f = None)
+    /\ (forall k, alookup k (t_rows t) = None -> alookup k (t_rows t') = None).
+Proof. exact dropped_family_absent. Qed.
+Print Assumptions C08_dropped_family_absent.
+
+(* ---- crash points and code order: the points a request passes, by name ---- *)
+Theorem C08_crash_point_names : forall d c,
+  map fst (snd (dstep d c)) =
+  if negb (N.eqb (br_code (snd (fst (dstep d c)))) cOK) then [] else
+  match cl_req c with
+  | BCreateTable _ _ _ => [s_meta_tmp; s_meta_renamed; s_db_removed]   (* SetTableMeta, then newDiskDb(nuke) *)
+  | BModifyFamilies _ _ => [s_meta_tmp; s_meta_renamed]                (* SetTableMeta *)
+  | BDropRowRange _ true _ => [s_clear_closed; s_db_removed]           (* Clear: Close, then newDiskDb(nuke) *)
+  | _ => []
+  end.
+Proof. exact crash_point_names. Qed.
+Print Assumptions C08_crash_point_names.
+
+(* ---- non-vacuity: a program with create, writes, clear, modify, delete, re-create ---- *)
+Example C08_prog_acks :
+  map (fun r => (br_code (fst r), map fst (snd r))) (snd (drun init_dstate ex_prog))
+  = [ (cOK, [s_meta_tmp; s_meta_renamed; s_db_removed]); (cOK, []); (cOK, []);
+      (cOK, [s_clear_closed; s_db_removed]); (cOK, []); (cOK, [s_meta_tmp; s_meta_renamed]); (cOK, []);
+      (cOK, [s_meta_tmp; s_meta_renamed; s_db_removed]); (cOK, []) ].
+Proof. vm_compute. reflexivity. Qed.
+
+(* (table, (families, row keys)) served by a restart at each of the 10 request boundaries *)
+Example C08_prog_boundaries :
+  map (fun k => ex_view (restart (image_of (fst (drun init_dstate (firstn k ex_prog)))))) (seq 0 10)
+  = [ [];
+      [(ex_name, ([[102%N]; [103%N]], []))];
+      [(ex_name, ([[102%N]; [103%N]], [[97%N]]))];
+      [(ex_name, ([[102%N]; [103%N]], [[97%N]; [98%N]]))];
+      [(ex_name, ([[102%N]; [103%N]], []))];
+      [(ex_name, ([[102%N]; [103%N]], [[99%N]]))];
+      [(ex_name, ([[102%N]; [103%N]; [104%N]], [[99%N]]))];
+      [];
+      [(ex_name, ([[103%N]], []))];
+      [(ex_name, ([[103%N]], [[100%N]]))] ].
+Proof. vm_compute. reflexivity. Qed.
+
+(* ... and at each crash point inside each request: always the boundary before or after *)
+Example C08_prog_crash_points :
+  map (fun r => map (fun p => ex_view (restart (snd p))) (snd r)) (snd (drun init_dstate ex_prog))
+  = [ [ []; [(ex_name, ([[102%N]; [103%N]], []))]; [(ex_name, ([[102%N]; [103%N]], []))] ];
+      []; [];
+      [ [(ex_name, ([[102%N]; [103%N]], [[97%N]; [98%N]]))]; [(ex_name, ([[102%N]; [103%N]], []))] ];
+      [];
+      [ [(ex_name, ([[102%N]; [103%N]], [[99%N]]))]; [(ex_name, ([[102%N]; [103%N]; [104%N]], [[99%N]]))] ];
+      [];
+      [ []; [(ex_name, ([[103%N]], []))]; [(ex_name, ([[103%N]], []))] ];
+      [] ].
+Proof. vm_compute. reflexivity. Qed.
+
+(* the hypotheses of the theorems are met along the program *)
+Example C08_prog_hyps :
+  let d := fst (drun init_dstate (firstn 7 ex_prog)) in
+  dreach d /\ disk_inv d /\ orphans_empty d /\ alookup ex_name (ds_mem d) = None
+  /\ no_effective_drop (ds_mem (fst (drun init_dstate (firstn 5 ex_prog)))) (nth 5 ex_prog (ex_put 0 0)).
+Proof. exact ex_prog_hyps. Qed.
+
+(* BT-18 in numbers: (families, row keys) before / at the two crash points / after *)
+Example C08_bt18_restarts :
+  let d := fst (drun init_dstate [ex_create ex_fg; ex_put 97 102]) in
+  let c := mkCall (BModifyFamilies ex_name [MDrop [102%N]]) 0%Z [] in
+  let view (s : server) := match alookup ex_name s with
+                           | Some t => Some (map fst (t_fams t), map fst (t_rows t))
+                           | None => None end in
+  view (restart (image_of d)) = Some ([[102%N]; [103%N]], [[97%N]])
+  /\ map (fun p => view (restart (snd p))) (snd (dstep d c)) = [Some ([[102%N]; [103%N]], []); Some ([[103%N]], [])]
+  /\ view (restart (image_of (fst (fst (dstep d c))))) = Some ([[103%N]], []).
+Proof. vm_compute. repeat split; reflexivity. Qed.
+
+(* a crash image with a directory but no definition (create killed at disk.meta.tmp): the restarted
+   server has it as an orphan, and the retried create and a write work *)
+Example C08_crash_then_continue :
+  let c := ex_create ex_fg in
+  let im := snd (nth 0 (snd (dstep init_dstate c)) (s_meta_tmp, mkImage [] [])) in
+  im = mkImage [] [(ex_name, [])]
+  /\ ds_orphans (boot im) = [(ex_name, [])]
+  /\ ex_view (restart (image_of (fst (drun (boot im) [c; ex_put 97 102])))) = [(ex_name, ([[102%N]; [103%N]], [[97%N]]))].
+Proof. vm_compute. repeat split; reflexivity. Qed.
